@@ -4,6 +4,7 @@ package resolver
 
 import (
 	"context"
+	"errors"
 	"net"
 	"net/netip"
 	"sort"
@@ -176,4 +177,50 @@ func VerifC07SearchCache(zones []string, qname string, qtype uint16) (zone strin
 	}
 	m := r.searchCache(dns.Question{Name: qname, Qtype: qtype, Qclass: dns.ClassINET}, false, qname)
 	return m.servers.Zone, m.level
+}
+
+// VerifC07Deleg is a bare resolver on which processDelegation can run without
+// a network: DNSSEC off, IPv4 only, name-server address lookups answered by q,
+// and a recursion depth of 1 so that processDelegation returns (errMaxDepth)
+// right after it has stored the delegation, before it would descend.
+type VerifC07Deleg struct{ r *Resolver }
+
+func VerifC07NewDeleg(q middleware.Queryer) *VerifC07Deleg {
+	r := &Resolver{cfg: &config.Config{}, delegations: authority.NewCache(), glueV4: cache.New(256), glueV6: cache.New(256)}
+	r.queryer.Store(&q)
+	return &VerifC07Deleg{r: r}
+}
+
+// Process runs extractDelegationInfo + processDelegation for one referral
+// received from the servers of authZone at the given level, for a CD=1 request.
+func (d *VerifC07Deleg) Process(ctx context.Context, authZone string, level int, q dns.Question, resp *dns.Msg) string {
+	req := new(dns.Msg)
+	req.Question = []dns.Question{q}
+	req.CheckingDisabled = true
+	rs := &resolveState{req: req, servers: &authority.Servers{Zone: authZone}, depth: 1, level: level}
+	info := d.r.extractDelegationInfo(resp)
+	if info.nsRecord == nil {
+		return "nons"
+	}
+	_, err := d.r.processDelegation(ctx, rs, resp, info, false)
+	switch {
+	case err == nil:
+		return "nil"
+	case errors.Is(err, errParentDetection):
+		return "parent"
+	case errors.Is(err, errNoReachableAuth):
+		return "noauth"
+	case errors.Is(err, errMaxDepth):
+		return "maxdepth"
+	}
+	return "other"
+}
+
+// Delegations lists zone -> server addresses; Glue reads the IPv4 glue cache.
+func (d *VerifC07Deleg) Delegations() map[string][]string {
+	return authority.VerifC07Entries(d.r.delegations)
+}
+func (d *VerifC07Deleg) Glue(name string) []netip.Addr {
+	a, _ := d.r.getIPv4Cache(name)
+	return a
 }
